@@ -332,6 +332,13 @@ type c26Stats struct {
 	// an offset written as a duration expression is the last thing printed before an
 	// arithmetic binary operator
 	offsetExprBeforeArith bool
+	// an offset that is an unparenthesised binary duration expression starting with a plain literal
+	offsetBinExprLiteralFirst bool
+	// a range / step / offset of math.MinInt64 ns: what "offset NaN" or "[NaN]" is converted to
+	nanDuration bool
+	// a duration expression holds an unparenthesised unary plus (DurationExpr{Op: ADD, LHS: nil}),
+	// which the printer deliberately omits
+	durUnaryPlus bool
 }
 
 // c26RightmostOffsetExpr reports whether the last thing printed for e is an offset given
@@ -355,6 +362,45 @@ func c26RightmostOffsetExpr(e parser.Expr) bool {
 	}
 }
 
+// c26OffsetLiteralFirst: "offset --30s + 0" is parsed as one duration expression (30s + 0)
+// because of the leading sign; printed as "offset 30s + 0" the grammar ends the offset at
+// the literal and takes "+ 0" as a binary operator on the selector.
+func c26OffsetLiteralFirst(d *parser.DurationExpr) bool {
+	if d == nil || d.Wrapped || d.LHS == nil || d.RHS == nil {
+		return false
+	}
+	switch d.Op {
+	case parser.ADD, parser.SUB, parser.MUL, parser.DIV, parser.MOD, parser.POW:
+	default:
+		return false
+	}
+	// descend to the leftmost leaf: a literal, step(), range() or min_of/max_of(...) is a
+	// complete offset on its own for the grammar's offset_duration_expr rule
+	var l parser.Expr = d
+	for {
+		de, ok := l.(*parser.DurationExpr)
+		if !ok {
+			break
+		}
+		if de.Wrapped {
+			return false
+		}
+		switch de.Op {
+		case parser.STEP, parser.RANGE, parser.MIN_OF, parser.MAX_OF:
+			return true
+		case parser.ADD, parser.SUB, parser.MUL, parser.DIV, parser.MOD, parser.POW:
+			if de.LHS == nil {
+				return false
+			}
+		default:
+			return false
+		}
+		l = de.LHS
+	}
+	_, isLit := l.(*parser.NumberLiteral)
+	return isLit
+}
+
 func c26Inspect(e parser.Expr) c26Stats {
 	st := c26Stats{kinds: map[string]bool{}}
 	legacy := func(s string) bool { return model.LegacyValidation.IsValidLabelName(s) }
@@ -375,6 +421,9 @@ func c26Inspect(e parser.Expr) c26Stats {
 				return
 			}
 			st.kinds["DurationExpr"] = true
+			if x.LHS == nil && x.RHS != nil && x.Op == parser.ADD && !x.Wrapped {
+				st.durUnaryPlus = true
+			}
 			if x.LHS != nil {
 				durExpr(x.LHS)
 			}
@@ -409,6 +458,9 @@ func c26Inspect(e parser.Expr) c26Stats {
 				st.kinds["mod:anchored/smoothed"] = true
 			}
 			durExpr(x.OriginalOffsetExpr)
+			if c26OffsetLiteralFirst(x.OriginalOffsetExpr) {
+				st.offsetBinExprLiteralFirst = true
+			}
 			for _, m := range x.LabelMatchers {
 				if m == nil {
 					continue
@@ -423,10 +475,16 @@ func c26Inspect(e parser.Expr) c26Stats {
 			if x.OriginalOffset%1e6 != 0 {
 				st.subMsDuration = true
 			}
+			if x.OriginalOffset == math.MinInt64 {
+				st.nanDuration = true
+			}
 		case *parser.MatrixSelector:
 			durExpr(x.RangeExpr)
 			if x.Range%1e6 != 0 {
 				st.subMsDuration = true
+			}
+			if x.Range == math.MinInt64 {
+				st.nanDuration = true
 			}
 		case *parser.SubqueryExpr:
 			if x.OriginalOffset != 0 || x.OriginalOffsetExpr != nil || x.Timestamp != nil || x.StartOrEnd != 0 {
@@ -436,8 +494,14 @@ func c26Inspect(e parser.Expr) c26Stats {
 			durExpr(x.RangeExpr)
 			durExpr(x.StepExpr)
 			durExpr(x.OriginalOffsetExpr)
+			if c26OffsetLiteralFirst(x.OriginalOffsetExpr) {
+				st.offsetBinExprLiteralFirst = true
+			}
 			if x.Range%1e6 != 0 || x.Step%1e6 != 0 || x.OriginalOffset%1e6 != 0 {
 				st.subMsDuration = true
+			}
+			if x.Range == math.MinInt64 || x.Step == math.MinInt64 || x.OriginalOffset == math.MinInt64 {
+				st.nanDuration = true
 			}
 		case *parser.BinaryExpr:
 			if vm := x.VectorMatching; vm != nil {
@@ -496,6 +560,13 @@ func c26Inspect(e parser.Expr) c26Stats {
 func c26KnownSig(st c26Stats, diff string) string {
 	field := diff[:strings.IndexByte(diff+":", ':')]
 	switch {
+	case st.nanDuration:
+		// "offset NaN" / "[NaN]" pass the range checks and become time.Duration(math.MinInt64)
+		return "nan-duration-accepted"
+	case st.durUnaryPlus:
+		// "offset + step()" is DurationExpr{ADD, RHS: step()}; printed as "offset step()" it comes
+		// back as DurationExpr{STEP}, and a following operator may change sides
+		return "duration-expr-unary-plus-not-printed"
 	case st.subMsDuration && (strings.HasSuffix(field, ".Range") || strings.HasSuffix(field, ".Step") || strings.HasSuffix(field, ".OriginalOffset")):
 		// range / step / offset given as a number of seconds with a sub-millisecond part:
 		// the printer goes through model.Duration, which has millisecond resolution
@@ -508,10 +579,14 @@ func c26KnownSig(st c26Stats, diff string) string {
 	case st.plusInfBeforePow && strings.Contains(diff, "*parser.BinaryExpr vs *parser.UnaryExpr"):
 		// +Inf is printed with its sign; in front of ^ the sign then binds to the whole power
 		return "plus-inf-printed-with-sign-before-pow"
-	case st.offsetExprBeforeArith && (strings.Contains(field, "OriginalOffsetExpr") || strings.Contains(diff, ": type *parser.BinaryExpr vs")):
+	case st.offsetExprBeforeArith:
+		// the swallowed operator re-associates the surrounding expression, so the first
+		// differing field can be anywhere (an Op, a type, the offset expression itself)
 		// "x offset +min_of(a, b) ^ 0" is (x offset ...) ^ 0, but printed without the sign the
 		// duration-expression grammar takes "^ 0" as part of the offset
 		return "offset-duration-expr-swallows-following-operator"
+	case st.offsetBinExprLiteralFirst:
+		return "offset-binary-duration-expr-reparsed-as-binary-operator"
 	}
 	return ""
 }
@@ -576,6 +651,15 @@ func runC26(c c26Case, r *ev.Rec) error {
 		return ev.Failf("source %q printed as %q; parsing that panicked: %v", c.Src, s1, pn)
 	}
 	if err != nil {
+		if st.nanDuration {
+			return ev.FailSig("nan-duration-accepted", "source %q [opts %04b] parses, but its printed form %q does not: %v", c.Src, c.Opts, s1, err)
+		}
+		if st.durUnaryPlus {
+			return ev.FailSig("duration-expr-unary-plus-not-printed", "source %q [opts %04b] parses, but its printed form %q does not: %v", c.Src, c.Opts, s1, err)
+		}
+		if st.offsetBinExprLiteralFirst && c.Opts&2 != 0 {
+			return ev.FailSig("offset-binary-duration-expr-reparsed-as-binary-operator", "source %q [opts %04b] parses, but its printed form %q does not: %v", c.Src, c.Opts, s1, err)
+		}
 		if st.offsetExprBeforeArith && c.Opts&2 != 0 {
 			// "x offset (30s) + y": the duration-expression grammar swallows the operator
 			return ev.FailSig("offset-duration-expr-swallows-following-operator", "source %q [opts %04b] parses, but its printed form %q does not: %v", c.Src, c.Opts, s1, err)
